@@ -140,19 +140,6 @@ func RunNewEpic(opts GlobalOptions) error {
 	return nil
 }
 
-// refreshCreated re-reads what a follow-up update (state/claim given at creation) may have changed,
-// so that the reply reports the task as a following read shows it.
-func refreshCreated(dir string, created createOutput) createOutput {
-	graph, err := loadGraph(dir)
-	if err != nil {
-		return created
-	}
-	if task := graph.Tasks[created.ID]; task != nil {
-		created.State = task.State
-	}
-	return created
-}
-
 func RunNewTask(opts GlobalOptions) error {
 	if opts.BodyStdin {
 		if err := validateBodyStdinExclusions(opts.BodyFlag); err != nil {
@@ -171,20 +158,12 @@ func RunNewTask(opts GlobalOptions) error {
 		if err != nil {
 			return err
 		}
-		created, err := createTask(dir, opts, opts.EpicFlag, false, title, body)
-		if err != nil {
-			return err
-		}
-
 		updates := buildFlagUpdates(opts)
 		delete(updates, "title")
 		delete(updates, "epic")
-		if len(updates) > 0 {
-			agentID := opts.AgentID
-			if err := applySetUpdates(dir, opts, created.ID, updates, agentID, true); err != nil {
-				return err
-			}
-			created = refreshCreated(dir, created)
+		created, err := createTask(dir, opts, opts.EpicFlag, false, title, body, taskFollowUp{updates: updates, agentID: opts.AgentID})
+		if err != nil {
+			return err
 		}
 
 		if opts.JSON {
@@ -209,20 +188,12 @@ func RunNewTask(opts GlobalOptions) error {
 		if err != nil {
 			return err
 		}
-		created, err := createTask(dir, opts, opts.EpicFlag, false, title, opts.BodyFlag)
-		if err != nil {
-			return err
-		}
-
 		updates := buildFlagUpdates(opts)
 		delete(updates, "title")
 		delete(updates, "epic")
-		if len(updates) > 0 {
-			agentID := opts.AgentID
-			if err := applySetUpdates(dir, opts, created.ID, updates, agentID, true); err != nil {
-				return err
-			}
-			created = refreshCreated(dir, created)
+		created, err := createTask(dir, opts, opts.EpicFlag, false, title, opts.BodyFlag, taskFollowUp{updates: updates, agentID: opts.AgentID})
+		if err != nil {
+			return err
 		}
 
 		if opts.JSON {
@@ -254,26 +225,20 @@ func RunNewTask(opts GlobalOptions) error {
 		return err
 	}
 
-	// Create the task
-	created, err := createTask(dir, opts, input.GetEpic(), false, input.GetTitle(), input.GetBody())
-	if err != nil {
-		return err
-	}
-
-	// If state/claim were provided, apply them via set logic
+	// State/claim/result given at creation are validated and recorded together with the task itself.
+	var updates map[string]string
 	if input.State != nil || input.Claim != nil || input.ResultPath != nil {
-		updates := input.ToKeyValueMap()
+		updates = input.ToKeyValueMap()
 		// Remove fields already handled by createTask
 		delete(updates, "title")
 		delete(updates, "body")
 		delete(updates, "epic")
-		if len(updates) > 0 {
-			agentID := opts.AgentID
-			if err := applySetUpdates(dir, opts, created.ID, updates, agentID, true); err != nil {
-				return err
-			}
-			created = refreshCreated(dir, created)
-		}
+	}
+
+	// Create the task
+	created, err := createTask(dir, opts, input.GetEpic(), false, input.GetTitle(), input.GetBody(), taskFollowUp{updates: updates, agentID: opts.AgentID})
+	if err != nil {
+		return err
 	}
 
 	if opts.JSON {
